@@ -138,11 +138,21 @@ func c07Best(n int) {
 	vnd.Assert(chosen.outcome == oValid, "C07.best.invalid-responses-never-returned")
 	vnd.Assert(chosen.latency <= elapsed, "C07.best.answer-arrived-before-return")
 	cs := s.scoreAttestationData(context.Background(), chosen.name, chosen.data)
+	exact := true
+	for i, p := range provs {
+		exact = vnd.And(exact, vnd.And(p.latency != timeout/2, p.latency != timeout))
+		for j := 0; j < i; j++ {
+			exact = vnd.And(exact, p.latency != provs[j].latency)
+		}
+	}
 	for _, p := range provs {
 		if p.outcome == oValid && p != chosen {
 			ps := s.scoreAttestationData(context.Background(), p.name, p.data)
 			// every valid response that arrived strictly before the return scores no higher
 			vnd.Assert(vnd.Implies(p.latency < elapsed, ps <= cs), "C07.best.highest-score-among-responses-received")
+			// without coincidences (no two answers at one instant, none at a deadline) that
+			// includes the answer whose arrival ended the wait
+			vnd.Assert(vnd.Implies(vnd.And(exact, p.latency <= elapsed), ps <= cs), "C07.best.highest-score-among-responses-received-exact")
 		}
 	}
 }
